@@ -7,6 +7,7 @@ import (
 	"github.com/platinummonkey/go-concurrency-limits/core"
 	"github.com/platinummonkey/go-concurrency-limits/limit"
 	"github.com/platinummonkey/go-concurrency-limits/limit/functions"
+	"github.com/platinummonkey/go-concurrency-limits/measurements"
 
 	"verif/mc"
 )
@@ -27,11 +28,31 @@ type limCfg struct {
 	queue     string  // gradient*: fixed2 | fixed4 | sqrt4
 	tol       float64 // gradient rtt tolerance
 	longWin   int     // gradient2
+	ctor      string  // "" = the full constructor; "default" = the algorithm's NewDefault… constructor (fields mirror its values)
+	debug     bool    // logger with debug enabled: the Debugf branches and their arguments are evaluated
+	custom    bool    // vegas: caller-supplied alpha/beta/threshold/increase/decrease functions and baseline measurement
 }
 
+// debugLogger evaluates every debug statement (formatting included) and discards it.
+type debugLogger struct{}
+
+func (debugLogger) Debugf(msg string, params ...interface{}) { _ = fmt.Sprintf(msg, params...) }
+func (debugLogger) IsDebugEnabled() bool                     { return true }
+func (debugLogger) String() string                           { return "debugLogger{}" }
+
 func (c limCfg) String() string {
-	return fmt.Sprintf("%s%s init=%d min=%d max=%d smooth=%v backoff=%v incr=%d probe=%d queue=%s tol=%v longWin=%d",
-		c.algo, map[string]string{"": "", "windowed": "+windowed", "traced": "+traced"}[c.wrapper], c.initial, c.min, c.max, c.smoothing, c.backoff, c.incr, c.probe, c.queue, c.tol, c.longWin)
+	v := ""
+	if c.ctor != "" {
+		v += " ctor=" + c.ctor
+	}
+	if c.debug {
+		v += " debug-logger"
+	}
+	if c.custom {
+		v += " custom-functions"
+	}
+	return fmt.Sprintf("%s%s init=%d min=%d max=%d smooth=%v backoff=%v incr=%d probe=%d queue=%s tol=%v longWin=%d%s",
+		c.algo, map[string]string{"": "", "windowed": "+windowed", "traced": "+traced"}[c.wrapper], c.initial, c.min, c.max, c.smoothing, c.backoff, c.incr, c.probe, c.queue, c.tol, c.longWin, v)
 }
 
 func (c limCfg) queueFunc() func(int) int {
@@ -66,15 +87,29 @@ func (c limCfg) build(reg *RecRegistry) *limInst {
 		r = reg
 	}
 	var in core.Limit
-	switch c.algo {
-	case "aimd":
+	var lg limit.Logger
+	if c.debug {
+		lg = debugLogger{}
+	}
+	switch {
+	case c.ctor == "default" && c.algo == "aimd":
+		in = limit.NewDefaultAIMDLimit("t", r)
+	case c.ctor == "default" && c.algo == "vegas":
+		in = limit.NewDefaultVegasLimit("t", lg, r)
+	case c.ctor == "default" && c.algo == "gradient2":
+		in = limit.NewDefaultGradient2Limit("t", lg, r)
+	case c.algo == "aimd":
 		in = limit.NewAIMDLimit("t", c.initial, c.backoff, c.incr, r)
-	case "vegas":
-		in = limit.NewVegasLimitWithRegistry("t", c.initial, nil, c.max, c.smoothing, nil, nil, nil, nil, nil, c.probe, nil, r)
-	case "gradient":
-		in = limit.NewGradientLimitWithRegistry("t", c.initial, c.min, c.max, c.smoothing, c.queueFunc(), c.tol, c.probe, nil, r)
-	case "gradient2":
-		g, err := limit.NewGradient2Limit("t", c.initial, c.max, c.min, c.queueFunc(), c.smoothing, c.longWin, nil, r)
+	case c.algo == "vegas" && c.custom:
+		in = limit.NewVegasLimitWithRegistry("t", c.initial, &measurements.MinimumMeasurement{}, c.max, c.smoothing,
+			func(l int) int { return 3 }, func(l int) int { return 6 }, func(l int) int { return 1 },
+			func(l float64) float64 { return l + 2 }, func(l float64) float64 { return l / 2 }, c.probe, lg, r)
+	case c.algo == "vegas":
+		in = limit.NewVegasLimitWithRegistry("t", c.initial, nil, c.max, c.smoothing, nil, nil, nil, nil, nil, c.probe, lg, r)
+	case c.algo == "gradient":
+		in = limit.NewGradientLimitWithRegistry("t", c.initial, c.min, c.max, c.smoothing, c.queueFunc(), c.tol, c.probe, lg, r)
+	case c.algo == "gradient2":
+		g, err := limit.NewGradient2Limit("t", c.initial, c.max, c.min, c.queueFunc(), c.smoothing, c.longWin, lg, r)
 		if err != nil {
 			panic(err)
 		}
@@ -91,7 +126,11 @@ func (c limCfg) build(reg *RecRegistry) *limInst {
 		}
 		top = w
 	case "traced":
-		top = limit.NewTracedLimit(in, limit.NoopLimitLogger{})
+		if c.debug {
+			top = limit.NewTracedLimit(in, debugLogger{})
+		} else {
+			top = limit.NewTracedLimit(in, limit.NoopLimitLogger{})
+		}
 	}
 	return &limInst{cfg: c, top: top, inner: in, reg: reg}
 }
@@ -317,6 +356,21 @@ func limModel(cfg limCfg, h limHooks) *mc.Model {
 }
 
 // limGrid is the configuration grid shared by the limit properties; level 0 = quick.
+// limGridVariants: the same algorithms through their other construction paths — the NewDefault…
+// constructors, a logger with debug enabled (every Debugf argument is evaluated and formatted) and
+// caller-supplied Vegas functions.
+func limGridVariants() []limCfg {
+	return []limCfg{
+		{algo: "aimd", ctor: "default", initial: 10, backoff: 0.9, incr: 1},
+		{algo: "vegas", ctor: "default", initial: 20, max: 1000, smoothing: 1.0, probe: 30, debug: true},
+		{algo: "gradient2", ctor: "default", initial: 20, min: 20, max: 200, smoothing: 0.2, queue: "fixed4", longWin: 600, debug: true},
+		{algo: "vegas", initial: 4, max: 10, smoothing: 1.0, probe: 2, debug: true},
+		{algo: "vegas", initial: 4, max: 10, smoothing: 0.5, probe: 4, custom: true, debug: true},
+		{algo: "gradient", initial: 4, min: 1, max: 10, smoothing: 1.0, queue: "fixed2", tol: 2.0, probe: 3, debug: true},
+		{algo: "gradient2", initial: 4, min: 1, max: 10, smoothing: 1.0, queue: "fixed2", longWin: 3, debug: true},
+	}
+}
+
 func limGrid(level int) []limCfg {
 	g := []limCfg{
 		{algo: "aimd", initial: 4, backoff: 0.9, incr: 1},
